@@ -180,39 +180,39 @@ Lemma set_get_name n pp d a ov v :
   = Ok (Some (path_join pp (match ov with Some s => s | None => n end), v)).
 Proof. cbn. rewrite dict_get_set_same. reflexivity. Qed.
 
-Lemma set_field_name_same n pp d a ov v node' :
-  set_field (FName n) pp (VSub d a) ov v = Ok node' ->
+Lemma set_field_name_same mx n pp d a ov v node' :
+  set_field mx (FName n) pp (VSub d a) ov v = Ok node' ->
   exists p', get_field (FName n) pp node' = Ok (Some (p', v)).
 Proof.
   cbn. intros H; inversion H; subst. eexists. cbn. rewrite dict_get_set_same. reflexivity.
 Qed.
 
-Lemma set_field_name_other n n' pp d a ov v node' :
-  n <> n' -> set_field (FName n) pp (VSub d a) ov v = Ok node' ->
+Lemma set_field_name_other mx n n' pp d a ov v node' :
+  n <> n' -> set_field mx (FName n) pp (VSub d a) ov v = Ok node' ->
   get_field (FName n') pp node' = get_field (FName n') pp (VSub d a).
 Proof.
   intros N. cbn. intros H; inversion H; subst. cbn. rewrite dict_get_set_other by exact N. reflexivity.
 Qed.
 
 (* a write into the list part never touches the dictionary part and vice versa *)
-Lemma set_field_name_keeps_list n pp d a ov v node' i :
-  set_field (FName n) pp (VSub d a) ov v = Ok node' ->
+Lemma set_field_name_keeps_list mx n pp d a ov v node' i :
+  set_field mx (FName n) pp (VSub d a) ov v = Ok node' ->
   get_field (FIdx i) pp node' = get_field (FIdx i) pp (VSub d a).
 Proof. cbn. intros H; inversion H; subst. reflexivity. Qed.
 
-Lemma set_field_idx_keeps_dict i pp d a ov v node' n :
-  set_field (FIdx i) pp (VSub d a) ov v = Ok node' ->
+Lemma set_field_idx_keeps_dict mx i pp d a ov v node' n :
+  set_field mx (FIdx i) pp (VSub d a) ov v = Ok node' ->
   get_field (FName n) pp node' = get_field (FName n) pp (VSub d a).
 Proof.
-  cbn. destruct (i <? 0); [discriminate|]. destruct (huge_idx <=? i); [discriminate|].
+  cbn. destruct (i <? 0); [discriminate|]. destruct ((lenZ (arr_of a) <=? i) && (mx <? i)); [discriminate|].
   intros H; inversion H; subst. reflexivity.
 Qed.
 
-Lemma set_field_idx_same i pp d a ov v node' :
-  set_field (FIdx i) pp (VSub d a) ov v = Ok node' ->
+Lemma set_field_idx_same mx i pp d a ov v node' :
+  set_field mx (FIdx i) pp (VSub d a) ov v = Ok node' ->
   exists p', get_field (FIdx i) pp node' = Ok (Some (p', v)).
 Proof.
-  cbn [set_field]. destruct (i <? 0) eqn:N; [discriminate|]. destruct (huge_idx <=? i); [discriminate|].
+  cbn [set_field]. destruct (i <? 0) eqn:N; [discriminate|]. destruct ((lenZ (arr_of a) <=? i) && (mx <? i)); [discriminate|].
   intros H; inversion H; subst. cbn [get_field to_cfg].
   assert (Hi : 0 <= i) by lia.
   rewrite N. cbn [orb].
@@ -222,29 +222,29 @@ Proof.
 Qed.
 
 (* the allocation bound: one write grows the list to at most max(old length, idx+1) *)
-Lemma set_field_idx_growth i pp d a ov v d' a' :
-  set_field (FIdx i) pp (VSub d a) ov v = Ok (VSub d' a') ->
+Lemma set_field_idx_growth mx i pp d a ov v d' a' :
+  set_field mx (FIdx i) pp (VSub d a) ov v = Ok (VSub d' a') ->
   lenZ (arr_of a') = Z.max (lenZ (arr_of a)) (i + 1).
 Proof.
-  cbn [set_field]. destruct (i <? 0) eqn:N; [discriminate|]. destruct (huge_idx <=? i); [discriminate|].
+  cbn [set_field]. destruct (i <? 0) eqn:N; [discriminate|]. destruct ((lenZ (arr_of a) <=? i) && (mx <? i)); [discriminate|].
   intros H; inversion H; subst. apply arr_set_at_length. lia.
 Qed.
 
 (* a failed write changes nothing (it returns no new tree at all), and writes through a
    primitive are rejected *)
-Lemma set_field_non_config f pp v ov x :
-  is_sub v = false -> exists r p, set_field f pp v ov x = Err r p.
+Lemma set_field_non_config mx f pp v ov x :
+  is_sub v = false -> exists r p, set_field mx f pp v ov x = Err r p.
 Proof. destruct v; cbn; try discriminate; intros _; eauto. Qed.
 
 (** * path-addressed writes are read back (for every path, every tree) *)
-Lemma set_field_same_any f pp1 node ov v node' :
-  set_field f pp1 node ov v = Ok node' ->
+Lemma set_field_same_any mx f pp1 node ov v node' :
+  set_field mx f pp1 node ov v = Ok node' ->
   forall pp2, exists p', get_field f pp2 node' = Ok (Some (p', v)).
 Proof.
   intros H pp2. destruct node; try (destruct f; discriminate).
   destruct f as [n|i].
   - cbn in H. inversion H; subst. eexists. cbn. rewrite dict_get_set_same. reflexivity.
-  - cbn [set_field] in H. destruct (i <? 0) eqn:N; [discriminate|]. destruct (huge_idx <=? i); [discriminate|].
+  - cbn [set_field] in H. destruct (i <? 0) eqn:N; [discriminate|]. destruct ((lenZ (arr_of a) <=? i) && (mx <? i)); [discriminate|].
     inversion H; subst. cbn [get_field to_cfg].
     assert (Hi : 0 <= i) by lia.
     rewrite N. cbn [orb]. rewrite (arr_set_at_length a i _ Hi).
@@ -252,18 +252,18 @@ Proof.
     rewrite (arr_set_at_same a i _ Hi). eexists. reflexivity.
 Qed.
 
-Lemma set_field_is_sub f pp node ov v node' :
-  set_field f pp node ov v = Ok node' -> is_sub node = true /\ is_sub node' = true.
+Lemma set_field_is_sub mx f pp node ov v node' :
+  set_field mx f pp node ov v = Ok node' -> is_sub node = true /\ is_sub node' = true.
 Proof.
   destruct node; try (destruct f; discriminate). destruct f as [n|i]; cbn.
   - intros H; inversion H; subst. split; reflexivity.
-  - destruct (i <? 0); [discriminate|]. destruct (huge_idx <=? i); [discriminate|].
+  - destruct (i <? 0); [discriminate|]. destruct ((lenZ (arr_of a) <=? i) && (mx <? i)); [discriminate|].
     intros H; inversion H; subst. split; reflexivity.
 Qed.
 
 (* intermediate nodes built for a new path lead to the written value *)
-Lemma build_leads_to rp fs : forall ov v x,
-  build fs ov v = Ok x ->
+Lemma build_leads_to mx rp fs : forall ov v x,
+  build mx fs ov v = Ok x ->
   match fs with
   | [] => snd x = v
   | _ => is_sub (snd x) = true /\ forall pp, exists p', get_path_go rp fs pp (snd x) = Ok (Some (p', v))
@@ -271,11 +271,11 @@ Lemma build_leads_to rp fs : forall ov v x,
 Proof.
   induction fs as [|f r IH]; intros ov v x H.
   - cbn in H. inversion H; subst. reflexivity.
-  - cbn [build] in H. destruct (build r ov v) as [y| | |] eqn:B; cbn [bind] in H; try discriminate.
-    destruct (set_field f "" empty_cfg (fst y) (snd y)) as [n| | |] eqn:S; cbn [bind] in H; try discriminate.
+  - cbn [build] in H. destruct (build mx r ov v) as [y| | |] eqn:B; cbn [bind] in H; try discriminate.
+    destruct (set_field mx f "" empty_cfg (fst y) (snd y)) as [n| | |] eqn:S; cbn [bind] in H; try discriminate.
     inversion H; subst. cbn [snd]. specialize (IH ov v y B).
-    split; [apply (set_field_is_sub _ _ _ _ _ _ S)|].
-    intros pp. destruct (set_field_same_any _ _ _ _ _ _ S pp) as [p' G].
+    split; [apply (set_field_is_sub _ _ _ _ _ _ _ S)|].
+    intros pp. destruct (set_field_same_any _ _ _ _ _ _ _ S pp) as [p' G].
     destruct r as [|f2 r2].
     + cbn in IH. subst. cbn [get_path_go]. rewrite G. eauto.
     + destruct IH as [_ IH]. cbn [get_path_go]. rewrite G. apply IH.
@@ -325,19 +325,19 @@ Proof.
   destruct ((i <? 0) || (Z.of_nat 0 <=? i)) eqn:B; [discriminate H|]. lia.
 Qed.
 
-Lemma set_path_is_sub fs : forall pp node ov v node',
-  fs <> [] -> set_path fs pp node ov v = Ok node' -> is_sub node = true.
+Lemma set_path_is_sub mx fs : forall pp node ov v node',
+  fs <> [] -> set_path mx fs pp node ov v = Ok node' -> is_sub node = true.
 Proof.
   induction fs as [|f rest IH]; intros pp node ov v node' NE H; [congruence|].
   destruct rest as [|f2 r2].
-  - cbn in H. apply (set_field_is_sub _ _ _ _ _ _ H).
+  - cbn in H. apply (set_field_is_sub _ _ _ _ _ _ _ H).
   - cbn [set_path] in H.
-    assert (Fresh : (x <- build (f2 :: r2) ov v;; set_field f pp node (fst x) (snd x)) = Ok node' -> is_sub node = true).
-    { intros F. destruct (build (f2 :: r2) ov v) as [y| | |]; cbn [bind] in F; try discriminate.
-      apply (set_field_is_sub _ _ _ _ _ _ F). }
+    assert (Fresh : (x <- build mx (f2 :: r2) ov v;; set_field mx f pp node (fst x) (snd x)) = Ok node' -> is_sub node = true).
+    { intros F. destruct (build mx (f2 :: r2) ov v) as [y| | |]; cbn [bind] in F; try discriminate.
+      apply (set_field_is_sub _ _ _ _ _ _ _ F). }
     destruct (get_field f pp node) as [[[pp' v0]|]|e p| |] eqn:G; try discriminate.
-    + assert (Desc : (v' <- set_path (f2 :: r2) pp' v0 ov v;; Ok (replace_child f node v')) = Ok node' -> is_sub node = true).
-      { intros D. destruct (set_path (f2 :: r2) pp' v0 ov v) as [v'| | |] eqn:S; cbn [bind] in D; try discriminate.
+    + assert (Desc : (v' <- set_path mx (f2 :: r2) pp' v0 ov v;; Ok (replace_child f node v')) = Ok node' -> is_sub node = true).
+      { intros D. destruct (set_path mx (f2 :: r2) pp' v0 ov v) as [v'| | |] eqn:S; cbn [bind] in D; try discriminate.
         assert (NE2 : f2 :: r2 <> []) by discriminate.
         pose proof (IH _ _ _ _ _ NE2 S) as Sub.
         destruct (get_field_some_cases _ _ _ _ _ G) as [Hs|He]; [exact Hs|subst; exact Sub]. }
@@ -347,29 +347,29 @@ Proof.
 Qed.
 
 (* C12: a value written at an address is read back from that address, for every path *)
-Lemma set_path_get_path rp fs : forall pp node ov v node',
+Lemma set_path_get_path mx rp fs : forall pp node ov v node',
   fs <> [] ->
-  set_path fs pp node ov v = Ok node' ->
+  set_path mx fs pp node ov v = Ok node' ->
   exists p', get_path_go rp fs pp node' = Ok (Some (p', v)).
 Proof.
   induction fs as [|f rest IH]; intros pp node ov v node' NE H; [congruence|].
   destruct rest as [|f2 r2].
   - cbn [set_path] in H. cbn [get_path_go].
-    destruct (set_field_same_any _ _ _ _ _ _ H pp) as [p' G]. rewrite G. eauto.
+    destruct (set_field_same_any _ _ _ _ _ _ _ H pp) as [p' G]. rewrite G. eauto.
   - cbn [set_path] in H.
-    assert (Fresh : (x <- build (f2 :: r2) ov v;; set_field f pp node (fst x) (snd x)) = Ok node' ->
+    assert (Fresh : (x <- build mx (f2 :: r2) ov v;; set_field mx f pp node (fst x) (snd x)) = Ok node' ->
                     exists p', get_path_go rp (f :: f2 :: r2) pp node' = Ok (Some (p', v))).
-    { intros F. destruct (build (f2 :: r2) ov v) as [y| | |] eqn:B; cbn [bind] in F; try discriminate.
-      destruct (set_field_same_any _ _ _ _ _ _ F pp) as [p1 G].
-      pose proof (build_leads_to rp (f2 :: r2) ov v y B) as [_ L].
+    { intros F. destruct (build mx (f2 :: r2) ov v) as [y| | |] eqn:B; cbn [bind] in F; try discriminate.
+      destruct (set_field_same_any _ _ _ _ _ _ _ F pp) as [p1 G].
+      pose proof (build_leads_to mx rp (f2 :: r2) ov v y B) as [_ L].
       cbn [get_path_go]. rewrite G. apply L. }
     destruct (get_field f pp node) as [[[pp' v0]|]|e p| |] eqn:G; try discriminate.
-    + assert (Desc : (v' <- set_path (f2 :: r2) pp' v0 ov v;; Ok (replace_child f node v')) = Ok node' ->
+    + assert (Desc : (v' <- set_path mx (f2 :: r2) pp' v0 ov v;; Ok (replace_child f node v')) = Ok node' ->
                      exists p', get_path_go rp (f :: f2 :: r2) pp node' = Ok (Some (p', v))).
-      { intros D. destruct (set_path (f2 :: r2) pp' v0 ov v) as [v'| | |] eqn:S; cbn [bind] in D; try discriminate.
+      { intros D. destruct (set_path mx (f2 :: r2) pp' v0 ov v) as [v'| | |] eqn:S; cbn [bind] in D; try discriminate.
         inversion D; subst node'.
         assert (NE2 : f2 :: r2 <> []) by discriminate.
-        pose proof (set_path_is_sub (f2 :: r2) _ _ _ _ _ NE2 S) as Sub0.
+        pose proof (set_path_is_sub mx (f2 :: r2) _ _ _ _ _ NE2 S) as Sub0.
         assert (SubN : is_sub node = true).
         { destruct (get_field_some_cases _ _ _ _ _ G) as [Hs|He]; [exact Hs|subst; exact Sub0]. }
         rewrite (get_path_go_unfold rp f f2 r2 pp (replace_child f node v')).
@@ -381,11 +381,29 @@ Proof.
 Qed.
 
 (* C20 / C07: an index that came out of path parsing never grows a list beyond maxIdx+1 *)
-Lemma parsed_index_growth input sep maxIdx nk esc i pp d a ov v d' a' :
+Lemma parsed_index_growth mx input sep maxIdx nk esc i pp d a ov v d' a' :
   In (FIdx i) (parse_path input sep maxIdx nk esc) ->
-  set_field (FIdx i) pp (VSub d a) ov v = Ok (VSub d' a') ->
+  set_field mx (FIdx i) pp (VSub d a) ov v = Ok (VSub d' a') ->
   lenZ (arr_of a') <= Z.max (lenZ (arr_of a)) (maxIdx + 1).
 Proof.
   intros HI HS. apply ProofsField.parse_path_idx_bound in HI.
-  rewrite (set_field_idx_growth _ _ _ _ _ _ _ _ HS). lia.
+  rewrite (set_field_idx_growth _ _ _ _ _ _ _ _ _ HS). lia.
+Qed.
+
+(* C07: an EXPLICIT index (Set*/SetChild) beyond the maximum index never grows a list either:
+   after any single write the list is no longer than max(old length, maxIdx + 1) *)
+Lemma explicit_index_growth mx i pp d a ov v d' a' :
+  set_field mx (FIdx i) pp (VSub d a) ov v = Ok (VSub d' a') ->
+  lenZ (arr_of a') <= Z.max (lenZ (arr_of a)) (mx + 1).
+Proof.
+  intro HS. pose proof (set_field_idx_growth _ _ _ _ _ _ _ _ _ HS) as G. rewrite G.
+  cbn [set_field] in HS. destruct (i <? 0) eqn:N; [discriminate|].
+  destruct ((lenZ (arr_of a) <=? i) && (mx <? i)) eqn:B; [discriminate|]. lia.
+Qed.
+
+(* writes never panic, whatever the index *)
+Lemma set_field_no_panic mx f pp node ov v : set_field mx f pp node ov v <> Panic.
+Proof.
+  destruct node; try (destruct f; discriminate). destruct f as [n|i]; cbn; [discriminate|].
+  destruct (i <? 0); [discriminate|]. destruct ((lenZ (arr_of a) <=? i) && (mx <? i)); discriminate.
 Qed.
